@@ -77,16 +77,46 @@ def apply_config(tables):
     if REPO not in sys.path:
         sys.path.insert(0, REPO)
     sys.dont_write_bytecode = True
-    import code_data
-    import code_data._blocks as B
-    import code_data._line_mapping as L
-    import code_data._code_data as CD
-    import code_data._flags_data  # noqa: F401  (built from the patched tables at import)
+    # every module the library may import is loaded under the host's own version first; the library itself is then imported - and keeps running -
+    # under the configured version, so a version test written anywhere in it (module level or inside a function) reads the configuration
+    import argparse, ast, base64, collections, copy, ctypes, dataclasses, enum, importlib, importlib.util, inspect, itertools, math, pathlib, pkgutil, typing  # noqa: F401,E401
+    try:
+        import typing_extensions  # noqa: F401
+    except ImportError:
+        pass
+    fake_sys = FakeSys(ver)
+    real_vi = sys.version_info
+    sys.version_info = fake_sys.version_info
+    try:
+        import code_data
+        import code_data._blocks as B
+        import code_data._line_mapping as L
+        import code_data._code_data as CD
+        import code_data._flags_data  # noqa: F401  (built from the patched tables at import)
+        import code_data._json_data, code_data._normalize, code_data._args, code_data._constants  # noqa: F401,E401
+    finally:
+        sys.version_info = real_vi
     B._ATLEAST_310 = ver >= (3, 10)
     L.USE_LINETABLE = ver >= (3, 10)
-    CD.sys = types.SimpleNamespace(version_info=ver)
+    for name, mod in list(sys.modules.items()):
+        if (name == "code_data" or name.startswith("code_data.")) and mod is not None and getattr(mod, "sys", None) is sys:
+            mod.sys = fake_sys
+    CD.sys = fake_sys
     B.HAVE_ARGUMENT = tables["HAVE_ARGUMENT"]
     return code_data
+
+
+class FakeSys(object):
+    """`sys` as the library sees it under a configuration: version_info/hexversion of the configured interpreter, everything else the host's"""
+
+    def __init__(self, ver):
+        import collections
+        VI = collections.namedtuple("version_info", "major minor micro releaselevel serial")
+        self.version_info = VI(ver[0], ver[1], ver[2] if len(ver) > 2 else 0, "final", 0)
+        self.hexversion = (ver[0] << 24) | (ver[1] << 16) | ((ver[2] if len(ver) > 2 else 0) << 8) | 0xF0
+
+    def __getattr__(self, name):
+        return getattr(sys, name)
 
 
 class Cfg:
